@@ -312,7 +312,7 @@ let adapter_of_spec s = adapter_of_parts (String.split_on_char '@' s)
 let ufun_of = function "eq" -> UEq | "neq" -> UNeq | "prefix" -> UPrefix | "true" -> UTrue
                        | _ -> failwith "ufun"
 
-type stepk = SOp of op | SQuery of query | SWlog | SReload | SFresh | SQuery2 of query | SFileGone of bool
+type stepk = SOp of op | SQuery of query | SWlog | SReload | SFresh | SQuery2 of query | SFileGone of bool | SMark
            | SCtx4 of (char list * char list * char list * char list) * value list
 
 let rec step_of (st : string) : stepk =
@@ -377,6 +377,7 @@ and step_of1 (st : string) : stepk =
   | ["?wl"] -> SWlog
   | ["?rv"] -> SReload
   | ["FRESH"] -> SFresh
+  | ["MK"; _] -> SMark      (* a marker for the predicates; no effect *)
   | ["FX"] -> SFileGone true
   | ["FO"] -> SFileGone false
   | _ -> failwith ("step " ^ st)
@@ -437,6 +438,7 @@ let run_eng_line (line : string) (spec : string) (ad : string) (flags : string) 
                 outcome_str r
               | SQuery q -> answer_str (ask ptab !s q)
               | SCtx4 ((rk, pk, ek, mk), rv) -> outcome_str (enforce_with_ctx4 ptab !s rk pk ek mk rv)
+              | SMark -> "1"
               | SFresh ->
                 (match fresh_of !s with
                  | (fs, Ok _) -> fresh := Some fs; "1"
@@ -764,6 +766,17 @@ let pred_c07 steps impl =
             let n = block_before stl i in
             if n > 0 && sub_list stl (i - n) n = sub_list stl (i + 1) n then
               if sub_list outs (i - n) n <> sub_list outs (i + 1) n then ok := false
+          end) sts;
+      (* MK:0 .. MK:1 brackets calls of the OBSERVED domain whose net effect on its stored rules is nil (the generator
+         builds them so: a grant followed by its revocation): the view after MK:1 equals the view before MK:0, whatever
+         the other domains hold *)
+      Array.iteri (fun i st ->
+          if st = "MK:0" then begin
+            let n = block_before stl i in
+            let j = ref (i + 1) in
+            while !j < Array.length sts && sts.(!j) <> "MK:1" do incr j done;
+            if n > 0 && !j < Array.length sts && sub_list stl (i - n) n = sub_list stl (!j + 1) n then
+              if sub_list outs (i - n) n <> sub_list outs (!j + 1) n then ok := false
           end) sts;
       !ok end
   | None -> false
@@ -1285,7 +1298,10 @@ let pred_eng line spec ad flags steps impl =
                (if known_shared_rm_case ptab s rv then (if !res = "1" then res := "K:shared_role_manager") else res := "0")
            | _ -> ()) tr outs;
        (* the independent hand computation from the dumps must agree on "deviates or not" *)
-       let hand = pred_c19 ad steps impl in
+       (* the hand oracle knows three shapes (g, g2 both binary; both ternary; g binary + g2 ternary); for the reversed mixed
+          shape (g ternary, g2 binary) only the extracted Gallina predicate judges *)
+       let reversed = (try ignore (Str.search_forward (Str.regexp_string "g=3;g2=2") spec 0); true with Not_found -> false) in
+       let hand = if reversed then "1" else pred_c19 ad steps impl in
        if !res = "1" && hand <> "1" then "0" else !res
      | _ -> "0")
   | "C13" -> b01 (pred_c13 steps impl)
